@@ -1803,8 +1803,8 @@ package hashgraph
 
 //@ func (h *Hashgraph) Bootstrap() error
 //@   requires h != nil && h.PendingSignatures != nil && h.PendingSignatures.items != nil && h.MemoOK() && h.PendingRounds != nil && h.PendingRounds.wf()
-//@   requires forall b *BadgerStore :: interface{}(h.Store) == interface{}(b) ==> b != nil && b.inmemStore != nil
 //@   ensures[maintenance-restored] __dyn(h.Store, "BadgerStore") ==> h.Store.(*BadgerStore).maintenanceMode == old(h.Store.(*BadgerStore).maintenanceMode)
+//@   ensures[ready] h.ConsensusReady()
 //@   ensures[complete] ret0 == nil && __called("dbTopologicalEvents") ==> len(__lastretT[[]*Event]("dbTopologicalEvents", 0)) < 100
 //@   call InsertEventAndRunConsensus assume[db-event-shape] len(e.Body.Parents) == 2
 //@   call ProcessSigPool assume[separate-blocks] StoredBlocksSeparate(h.Store)
